@@ -158,28 +158,20 @@ Proof.
   destruct (is_scale k); [|ring]. rewrite !get_udiv. ring.
 Qed.
 
+Lemma equivb_spec a b : equivb a b = true <-> ueq (dims a) (dims b) /\ ueq (scale a) (scale b).
+Proof. unfold equivb. rewrite andb_true_iff, same_dims_spec, ueqb_spec. tauto. Qed.
+
 Lemma equiv_iff_conv_one a b :
-  equivb a b = true <->
-  (exists c, conv a b = Some c /\ is_one c = true) /\ ueq (angle a) (angle b).
+  equivb a b = true <-> exists c, conv a b = Some c /\ is_one c = true.
 Proof.
-  unfold equivb, is_one. rewrite ueqb_spec. split.
-  - intros H. split.
-    + unfold conv.
-      assert (Hd : same_dims a b = true) by (apply same_dims_spec, dims_ueq, H).
-      rewrite Hd. eexists; split; [reflexivity|]. apply ueqb_spec.
-      intro k. rewrite get_scale. cbn [get uone]. destruct (is_scale k); [|reflexivity].
-      rewrite get_udiv, (H k). ring.
-    + intro k. rewrite !get_angle. destruct (negb (is_dim k) && negb (is_scale k)); [apply H|reflexivity].
-  - intros [[c [Hc H1]] Ha]. apply conv_some in Hc as [Hd ->]. apply ueqb_spec in H1.
-    intro k. specialize (H1 k). specialize (Hd k). specialize (Ha k).
-    rewrite get_scale in H1. rewrite !get_dims in Hd. rewrite !get_angle in Ha. cbn [get uone] in H1.
-    destruct (is_dim k) eqn:Ed.
-    + exact Hd.
-    + destruct (is_scale k) eqn:Es; cbn [negb andb] in Ha.
-      * rewrite get_udiv in H1.
-        assert (E : (get a k == get b k + (get a k - get b k))%Q) by ring.
-        rewrite E, H1. ring.
-      * exact Ha.
+  rewrite equivb_spec. unfold is_one. split.
+  - intros [Hd Hs]. unfold conv. rewrite (proj2 (same_dims_spec a b) Hd). eexists; split; [reflexivity|]. apply ueqb_spec.
+    intro k. rewrite get_scale. cbn [get uone]. destruct (is_scale k) eqn:Es; [|reflexivity].
+    rewrite get_udiv. specialize (Hs k). rewrite !get_scale, Es in Hs. rewrite Hs. ring.
+  - intros [c [Hc H1]]. apply conv_some in Hc as [Hd ->]. apply ueqb_spec in H1. split; [exact Hd|].
+    intro k. specialize (H1 k). rewrite get_scale in H1. rewrite !get_scale. cbn [get uone] in H1.
+    destruct (is_scale k); [|reflexivity]. rewrite get_udiv in H1.
+    assert (E : (get a k == get b k + (get a k - get b k))%Q) by ring. rewrite E, H1. ring.
 Qed.
 
 (* ------------------------------------------------------------------------------------------ *)
